@@ -6,7 +6,8 @@ import HappyModel.C01.Process
     pre <tgt> <kind> <timeNs> <daemon> <hook> <cancelled>
     def <ent> <kind> <gen> <acts> | <term> ; <acts> | <term> ; …
       acts, comma separated:  E tgt kind delayNs daemon hook | X kind | R f val | A f g… | L f g… | N f | C ent | U ent |
-                              AH kind hook | M ent abs v
+                              AH kind hook | M ent abs v | RL tgt kind delayNs limit daemon
+    hop <index of pre-run event> <hops>
     lvl <ent> <v>
       term:                   Y delayNs | W f | Z
 -/
@@ -51,6 +52,7 @@ def parseAct (ts : List String) : Option Act :=
   | ["R", f, v] => some (.resolve (natD f) (parseVal v))
   | ["AH", k, h] => some (.addHook (natD k) (natD h))
   | ["M", x, a, v] => some (.metric (natD x) (natD a != 0) (intD v))
+  | ["RL", tgt, kind, d, lim, dm] => some (.relay (natD tgt) (natD kind) (natD d) (natD lim) (natD dm != 0))
   | "A" :: f :: gs => some (.anyOf (natD f) (nats gs))
   | "L" :: f :: gs => some (.allOf (natD f) (nats gs))
   | ["N", f] => some (.fresh (natD f))
@@ -75,6 +77,7 @@ structure Program where
   pre : List (Spec × Nat × Bool) := []      -- spec, hook, cancelled-before-run
   held : List Spec := []                    -- created before the run (after the scheduled ones), not scheduled
   levels : List (Nat × Int) := []           -- initial `level` attribute of entities (absent = None)
+  hops : List (Nat × Nat) := []             -- creation tag of a pre-run event ↦ the `hops` metadata it is scheduled with
 
 def parseProgram (body : List String) : Program :=
   body.foldl (fun p line =>
@@ -85,6 +88,7 @@ def parseProgram (body : List String) : Program :=
       { p with pre := p.pre ++ [(⟨natD t, natD tgt, natD kind, natD dm != 0, 0, p.pre.length + 1⟩, natD hk, natD c != 0)] }
     | ["held", tgt, kind, t, dm] =>
       { p with held := p.held ++ [⟨natD t, natD tgt, natD kind, natD dm != 0, 0, 0⟩] }
+    | ["hop", i, h] => { p with hops := (natD i + 1, natD h) :: p.hops }
     | ["lvl", x, v] => { p with levels := (natD x, intD v) :: p.levels.filter (fun q => q.1 != natD x) }
     | _ => p) {}
 
@@ -97,7 +101,7 @@ def Program.initState (p : Program) (gateCont : Bool) : St PS :=
     { defs := p.defs, nid := n, tagc := n + p.held.length, gateCont := gateCont,
       held := ((List.range p.held.length).zip p.held).map (fun q => (q.1, { q.2 with tag := n + q.1 + 1 })),
       lastKind := (ids.zip specs).foldl (fun acc q => (q.2.kind, q.1) :: acc.filter (fun x => x.1 != q.2.kind)) [],
-      level := p.levels,
+      level := p.levels, hopsOf := p.hops,
       hookOf := (ids.zip p.pre).filterMap (fun q => if q.2.2.1 = 0 then none else some (q.1, q.2.2.1)) }
   let s : St PS := init ps 0 specs
   { s with cancelled := (ids.zip p.pre).filterMap (fun q => if q.2.2.2 then some q.1 else none) }
